@@ -141,10 +141,14 @@ def _apply(tree, op, k, other_tree):
 
 def _mk(key, rounds, o1):
     src = SRCS[key]
+    _t = ast.parse(src)
+    NS, NE = len(_stmts(_t)) + 2, len(_exprs(_t)) + 4      # ordinals beyond the node counts (plus what one mutation can add) are inapplicable anyway
+    EXPR_OPS = ('expr_new', 'expr_foreign', 'rename', 'const_change', 'op_change', 'expr_swap_sibling')
 
     def fn(k1: int, k2: int, o2: int):
         assume(0 <= o2 < len(OPS) and -1 <= k1 <= 40 and -1 <= k2 <= 40)
         op1, op2 = OPS[o1], OPS[pc.pin(o2, 0, len(OPS) - 1)]
+        assume(k1 < (NE if op1 in EXPR_OPS else NS) and k2 < (NE if op2 in EXPR_OPS else NS))
         kk1, kk2 = pc.pin(k1, -1, 40), pc.pin(k2, -1, 40)
         if op1 == 'none':
             assume(kk1 == 0)
